@@ -5,9 +5,9 @@ from qgen import wirehex
 DIRTY_QTYPES = [1, 28, 2, 15, 33, 16, 99]
 
 
-def gen(rng, tier):
+def gen(rng, tier, n_cat=None):
     quick = tier == "quick"
-    n_cat = 70 if quick else 1500
+    n_cat = n_cat or (70 if quick else 1500)
     for _ in range(n_cat):
         zones = qgen.gen_catalog(rng)
         cat = ";".join(z.render() for z in zones)
